@@ -356,6 +356,66 @@ def law_check(draw, spn, width, evid, dom, what, N=3000):
     return None
 
 
+def offset_stage(rep, rs, tier):
+    """double-precision features far from the origin (a counter, a timestamp: 1e6 + noise with standard deviation 1/2, where the
+    single-precision spacing is 1/16): predict_proba / predict_log_proba of the classifier and predict_log_proba of the estimator
+    against an independent float64 evaluation of the wrapped circuit at the values SUPPLIED (harness/circuits.py)."""
+    from deeprob.spn.models.sklearn import SPNClassifier, SPNEstimator
+    from deeprob.spn.structure.leaf import Bernoulli, Gaussian
+    nbad = 0; done = 0
+    for i in range(3 if tier == "quick" else 12):
+        k = int(rs.choice([2, 3])); n = 240
+        y = rs.randint(0, k, size=n)
+        off = float(rs.choice([1.0e6, 2.0e6, -1.5e6]))
+        X = np.zeros((n, 3), dtype=np.float64)
+        X[:, 0] = off + 1.5 * y + 0.5 * rs.randn(n)
+        X[:, 1] = (rs.rand(n) < np.where(y == 0, 0.25, 0.7)).astype(np.float64)
+        X[:, 2] = 0.5 * y + rs.randn(n)
+        Q = np.zeros((7, 3), dtype=np.float64)
+        Q[:, 0] = off + 1.5 * rs.randint(0, k, size=7) + 0.5 * rs.randn(7); Q[:, 1] = rs.randint(0, 2, size=7); Q[:, 2] = rs.randn(7)
+        problem = None
+        try:
+            import io as _io, contextlib as _cl, warnings as _w
+            with _w.catch_warnings(), _cl.redirect_stdout(_io.StringIO()), np.errstate(all="ignore"):
+                _w.simplefilter("ignore")
+                clf = SPNClassifier([Gaussian, Bernoulli, Gaussian], min_rows_slice=60, random_state=int(rs.randint(1000)), verbose=False)
+                clf.fit(X, y)
+                P = np.asarray(clf.predict_proba(Q), dtype=np.float64)
+                est = SPNEstimator([Gaussian, Bernoulli, Gaussian], min_rows_slice=60, random_state=int(rs.randint(1000)), verbose=False)
+                est.fit(X)
+                LLe = np.asarray(est.predict_log_proba(Q), dtype=np.float64).reshape(-1)
+            classes = [float(c) for c in clf.classes_] if hasattr(clf, "classes_") else [float(c) for c in range(k)]
+            R = np.zeros((len(Q), len(classes)))
+            root_ = clf.spn_
+            if len(root_.children) != len(classes):
+                raise RuntimeError("classifier root does not have one child per class")
+            for r in range(len(Q)):
+                # prior x class-conditional evidence likelihood, the label marginalised exactly (sum over the label's values)
+                lls = []
+                for w_, ch_ in zip(root_.weights, root_.children):
+                    per_label = [G.py_log_likelihood(ch_, list(Q[r]) + [c]) for c in classes]
+                    m_ = max(per_label)
+                    lls.append(math.log(float(w_)) + m_ + math.log(sum(math.exp(t - m_) for t in per_label)))
+                lls = np.array(lls); lls = lls - lls.max(); R[r] = np.exp(lls) / np.exp(lls).sum()
+            refe = np.array([G.py_log_likelihood(est.spn_, list(Q[r])) for r in range(len(Q))])
+            if P.shape != R.shape or not np.all(np.abs(P - R) <= 2e-3):
+                r, c = np.unravel_index(int(np.argmax(np.abs(P - R))), R.shape) if P.shape == R.shape else (0, 0)
+                problem = dict(what="predict_proba differs from prior x class-conditional likelihood of the wrapped circuit at the float64 values supplied",
+                               row=[repr(float(t)) for t in Q[r]], cls=int(c), facade=float(P[r, c]) if P.shape == R.shape else list(P.shape), recomputed=float(R[r, c]))
+            elif not np.all(np.abs(LLe - refe) <= 2e-3 * np.abs(refe) + 2e-3):
+                r = int(np.argmax(np.abs(LLe - refe)))
+                problem = dict(what="estimator predict_log_proba differs from the wrapped circuit's log-density at the float64 values supplied",
+                               row=[repr(float(t)) for t in Q[r]], facade=float(LLe[r]), recomputed=float(refe[r]))
+        except Exception as e:
+            problem = dict(what="facade raised on double-precision features far from the origin", error=f"{type(e).__name__}: {e}")
+        done += 1
+        if problem:
+            nbad += 1
+            if nbad <= 3:
+                rep.violation(dict(kind="facade-on-float64-features-far-from-the-origin", offset=off, classes=k, problem=problem), True)
+    rep.cov["float64_offset_models"] = done
+
+
 def classifier_sampling(clf, classes, rs, rs_seed, dom=None):
     from deeprob.spn.algorithms.sampling import sample
     bad = []
@@ -662,5 +722,6 @@ def main(tier, seed, replay=None):
                        "each without and with NaNs (incl. an all-NaN row); one evaluation = one (fitted model, batch, row) compared inside Coq "
                        "(probabilities, predicted class) + estimator rows (likelihood, MPE); non-trivial = not a numerical tie and positive evidence; "
                        "distinct by (case, settings, row, batch size) hash")
+    offset_stage(rep, rs, tier)
     C.clean_gen(PID)
     return rep.finish("proof")
